@@ -366,7 +366,7 @@ func genInput(r *rng.R, i int, tier string) Input {
 			in.Comp = append(in.Comp, CompSpec{Method: meth, Via: vias[r.Intn(3)]})
 		}
 	}
-	if tier == "thorough" {
+	if tier == "thorough" || i%4 == 2 {
 		in.Extract = true
 	}
 	return in
